@@ -475,6 +475,8 @@ theorem St.Le.updateRootAll (s : St) : ∀ (fuel : Nat) (todo : List Nat) (root 
       apply ih
       st_le
 
+macro_rules | `(tactic| st_le1) => `(tactic| with_reducible apply St.Le.updateRootAll)
+
 theorem Cfg.updateRoot_le (c : Cfg) (k : List Frame) (todo : List Nat) (root : Nat) :
     St.Le c.st (c.updateRoot k todo root).st := by
   unfold Cfg.updateRoot; (try dsimp only)
